@@ -285,8 +285,15 @@ func regexpNext(sb *strings.Builder, sl *stringLexer, mode Mode) error {
 				return literalBracket()
 			}
 		}
-		if c == ']' {
+		switch c {
+		case ']':
 			bsb.WriteByte(']')
+			if c = sl.next(); c == '\x00' {
+				return literalBracket()
+			}
+		case '-':
+			// A leading dash is a literal, even if it may start a range.
+			bsb.WriteByte('-')
 			if c = sl.next(); c == '\x00' {
 				return literalBracket()
 			}
